@@ -259,6 +259,18 @@ func (p *Program) Func(pkgPath, recv, name string) *ssa.Function {
 		if n == 1 {
 			return found
 		}
+		// a function turned into a method of a small type of its package (loadDirectory(root, kind, m) ->
+		// (*dirInfo).loadDirectory()): still the same anchor, if the name is unique among the package's methods
+		n = 0
+		for _, f := range p.Funcs {
+			if f.Signature.Recv() != nil && f.Parent() == nil && f.Pkg == sp && sameAnchorName(f.Name(), name) && f.Synthetic == "" {
+				found = f
+				n++
+			}
+		}
+		if n == 1 {
+			return found
+		}
 		return nil
 	}
 	obj := sp.Pkg.Scope().Lookup(recv)
